@@ -29,6 +29,7 @@ type probe struct {
 	accept bool   // what the statement prescribes
 	block  types.Block
 	supp   consensus.V1BlockSupplement
+	note   string
 }
 
 func emptyBlock(s *chain.Sim) types.Block {
@@ -89,14 +90,14 @@ func probesAt(s *chain.Sim, rng *rand.Rand) []probe {
 			supp.Transactions = append(supp.Transactions, make([]consensus.V1TransactionSupplement, len(b.Transactions)-len(supp.Transactions))...)
 		}
 		s.Seal(&b, miner)
-		out = append(out, probe{rule, where(child, bound), accept, b, supp})
+		out = append(out, probe{rule: rule, where: where(child, bound), accept: accept, block: b, supp: supp})
 	}
 	near := func(bound uint64) bool { return bound == child || bound == child+1 || bound+1 == child }
 	med := s.MedianTime()
 
 	// --- spending rules on siacoin outputs
 	nsc := 0
-	for _, e := range s.St.SC {
+	for _, e := range s.St.SortedSC() {
 		r := s.RecipeFor(e.SiacoinOutput.Address)
 		if r == nil || e.SiacoinOutput.Value.IsZero() || nsc > 40 {
 			continue
@@ -155,7 +156,7 @@ func probesAt(s *chain.Sim, rng *rand.Rand) []probe {
 							w = "above"
 						}
 						s.Seal(&b, miner)
-						out = append(out, probe{"policy-after", w, med.After(r.MinTime), b, consensus.V1BlockSupplement{Transactions: nil}})
+						out = append(out, probe{rule: "policy-after", where: w, accept: med.After(r.MinTime), block: b})
 					}
 				}
 			}
@@ -177,6 +178,7 @@ func probesAt(s *chain.Sim, rng *rand.Rand) []probe {
 					t.Signatures[i].Signature = sig[:]
 				}
 				add("sig-timelock-v1", tl, tl <= child, b, supp)
+				out[len(out)-1].note = fmt.Sprintf("kind=%s keys=%d sigs=%d idx=%v", r.Kind, len(r.Keys), len(t.Signatures), r.UCKeyIdx)
 			}
 			nsc += 3
 		}
@@ -185,7 +187,7 @@ func probesAt(s *chain.Sim, rng *rand.Rand) []probe {
 	// --- v1 contracts
 	if v1ok {
 		n := 0
-		for _, e := range s.St.FC {
+		for _, e := range s.St.SortedFC() {
 			fc := e.FileContract
 			r := s.RecipeFor(fc.UnlockHash)
 			if r == nil || n > 12 {
@@ -238,7 +240,7 @@ func probesAt(s *chain.Sim, rng *rand.Rand) []probe {
 		}
 		// v1 transactions are invalid from the require height
 		if near(net.HardforkV2.RequireHeight) {
-			for _, e := range s.St.SC {
+			for _, e := range s.St.SortedSC() {
 				r := s.RecipeFor(e.SiacoinOutput.Address)
 				if r != nil && (r.Kind == "uc1" || r.Kind == "uc2of3") && e.MaturityHeight <= child {
 					if b, supp, _, ok := v1SpendBlock(s, e); ok {
@@ -250,7 +252,7 @@ func probesAt(s *chain.Sim, rng *rand.Rand) []probe {
 		}
 	}
 	if !v1ok && near(net.HardforkV2.RequireHeight) {
-		for _, e := range s.St.SC {
+		for _, e := range s.St.SortedSC() {
 			r := s.RecipeFor(e.SiacoinOutput.Address)
 			if r != nil && (r.Kind == "uc1" || r.Kind == "uc2of3") && e.MaturityHeight <= child {
 				if b, supp, _, ok := v1SpendBlock(s, e); ok {
@@ -262,7 +264,7 @@ func probesAt(s *chain.Sim, rng *rand.Rand) []probe {
 	}
 	// v2 transactions are invalid before the allow height
 	if near(net.HardforkV2.AllowHeight) {
-		for _, e := range s.St.SC {
+		for _, e := range s.St.SortedSC() {
 			r := s.RecipeFor(e.SiacoinOutput.Address)
 			if r != nil && (r.Kind == "uc1" || r.Kind == "uc2of3") && e.MaturityHeight <= child {
 				if b, ok := v2SpendBlock(s, e); ok {
@@ -276,7 +278,7 @@ func probesAt(s *chain.Sim, rng *rand.Rand) []probe {
 	// --- v2 contracts
 	if v2ok {
 		n := 0
-		for _, e := range s.St.V2FC {
+		for _, e := range s.St.SortedV2FC() {
 			fc := e.V2FileContract
 			if n > 12 {
 				break
@@ -350,7 +352,7 @@ func runC08(c *fw.Ctx) {
 				}
 				res.Count("rule:" + p.rule + ":" + p.where + ":" + acc)
 				res.Eval(fmt.Sprintf("%s/%d/%d/%s/%x", mode, seed, height, p.rule, p.block.ID()), true)
-				rp := map[string]any{"mode": mode, "seed": seed, "height": height, "rule": p.rule, "where": p.where}
+				rp := map[string]any{"mode": mode, "seed": seed, "height": height, "rule": p.rule, "where": p.where, "note": p.note}
 				if panicked {
 					res.Violate(fw.Violation{Key: "c10-validate-panic:c08-" + p.rule, What: "ValidateBlock panicked on a boundary probe: " + msg, Replay: rp})
 				} else if got != p.accept {
